@@ -9,6 +9,8 @@ import (
 	"go/token"
 	"os"
 	"path/filepath"
+	"reflect"
+	"sort"
 	"strconv"
 	"strings"
 )
@@ -43,6 +45,7 @@ type decFacts struct {
 	runResetsAttempt     bool   // (*reader).run: `attempt = 0` and `offset = start` after a successful initialize
 	runErrcountInc       bool   // … `errcount++` is the last statement of readLoop's body
 	loopBranches         string // per error class of readLoop's switch: what the clause does (canonical words)
+	decoderText          string // (*messageSetReader).readMessage and everything it reaches in message_reader.go / read.go / discard.go (closure)
 }
 
 // decExtractor carries the file set that the renderer needs and the names declared in the function being read.
@@ -387,10 +390,15 @@ func (d *decExtractor) plusLit(e ast.Expr, base string) int64 {
 //	conn.go           (*Conn).ReadBatchWith              empty message set when highWaterMark == offset
 func extractDecoder(repo, root string) error {
 	d := &decExtractor{fset: token.NewFileSet()}
+	alias := decAliases(repo)
 	parse := func(name string) (*ast.File, error) {
-		return parser.ParseFile(d.fset, filepath.Join(repo, name), nil, 0)
+		f, err := parser.ParseFile(d.fset, filepath.Join(repo, name), nil, 0)
+		if err == nil {
+			decApplyAliases(f, alias)
+		}
+		return f, err
 	}
-	nz := newDecNormaliser(d.fset, repo)
+	nz := newDecNormaliserAliased(d.fset, repo, alias)
 	d.nz = nz
 	need := func(f *ast.File, file, recv, name string) (*ast.FuncDecl, error) {
 		if fd := decFunc(f, recv, name); fd != nil {
@@ -421,7 +429,6 @@ func extractDecoder(repo, root string) error {
 	d.header(readHeader, &facts)
 	d.skipLoop(msrReadMessage, &facts)
 	d.messageV2(readMessageV2, &facts)
-
 	// ---- batch.go
 	bf, err := parse("batch.go")
 	if err != nil {
@@ -498,6 +505,15 @@ func extractDecoder(repo, root string) error {
 			facts.emptyWhenHwmEqOffset = true
 		}
 	})
+
+	// the text the statement-level models follow: everything (*messageSetReader).readMessage reaches in
+	// message_reader.go, read.go and discard.go (parsed a second time by the normaliser: rendering rewrites the trees)
+	facts.decoderText = "?"
+	for _, c := range nz.all["readMessage"] {
+		if decRecvType(c) == "messageSetReader" {
+			facts.decoderText = d.closure(c, map[string]bool{"message_reader.go": true, "read.go": true, "discard.go": true})
+		}
+	}
 
 	return os.WriteFile(filepath.Join(root, "lean/KafkaVerif/Gen/DecoderFacts.lean"), []byte(facts.lean()), 0o644)
 }
@@ -978,8 +994,309 @@ func (d *decExtractor) readerLoop(f *ast.File, run, initialize *ast.FuncDecl, fa
 				words = append(words, name+" -> "+strings.Join(acts, ","))
 			}
 		}
-		facts.loopBranches = strings.Join(words, " | ")
+		// the clauses name pairwise different errors (and `== nil`): their order is immaterial, `default` stays last
+		var named, deflt []string
+		for _, w := range words {
+			if strings.HasPrefix(w, "default ->") {
+				deflt = append(deflt, w)
+			} else {
+				named = append(named, w)
+			}
+		}
+		sort.Strings(named)
+		facts.loopBranches = strings.Join(append(named, deflt...), " | ")
 	}
+}
+
+// skeleton renders the body of a function with what the statement-level model does not follow removed:
+// `if <recv>.debug { … }` statements, value-less `var` declarations and the error plumbing
+// (`if err = f(); err != nil { return }` becomes `must(f())`).  Everything else — loop conditions, the order of the
+// calls, assignments, continue / return — is kept, alpha-normalised.
+func (d *decExtractor) skeleton(fd *ast.FuncDecl) string { return d.skeletonWith(fd, nil) }
+
+func (d *decExtractor) skeletonWith(fd *ast.FuncDecl, before func(*ast.FuncDecl)) string {
+	d.enter(fd)
+	var strip func(l []ast.Stmt) []ast.Stmt
+	strip = func(l []ast.Stmt) []ast.Stmt {
+		var out []ast.Stmt
+		for _, s := range l {
+			// `var x T` without a value: no behaviour, and where it stands is a matter of taste
+			if ds, ok := s.(*ast.DeclStmt); ok {
+				if gd, ok := ds.Decl.(*ast.GenDecl); ok && gd.Tok == token.VAR {
+					bare := true
+					for _, sp := range gd.Specs {
+						if vs, ok := sp.(*ast.ValueSpec); !ok || len(vs.Values) != 0 {
+							bare = false
+						}
+					}
+					if bare {
+						continue
+					}
+				}
+			}
+			if is, ok := s.(*ast.IfStmt); ok && is.Else == nil {
+				if is.Init == nil && d.render(is.Cond) == "$r.debug" {
+					continue
+				}
+				// if err = f(); err != nil { return }
+				if as, ok := is.Init.(*ast.AssignStmt); ok && len(is.Body.List) == 1 && len(as.Rhs) == 1 {
+					if ret, ok := is.Body.List[0].(*ast.ReturnStmt); ok && len(ret.Results) == 0 {
+						if cond, ok := is.Cond.(*ast.BinaryExpr); ok && cond.Op == token.NEQ && decName(cond.Y) == "nil" &&
+							decName(cond.X) != "" && decName(as.Lhs[len(as.Lhs)-1]) == decName(cond.X) {
+							call := &ast.CallExpr{Fun: ast.NewIdent("must"), Args: []ast.Expr{as.Rhs[0]}}
+							if len(as.Lhs) == 1 {
+								out = append(out, &ast.ExprStmt{X: call})
+							} else {
+								out = append(out, &ast.AssignStmt{Lhs: as.Lhs[:len(as.Lhs)-1], Tok: token.ASSIGN, Rhs: []ast.Expr{call}})
+							}
+							continue
+						}
+					}
+				}
+			}
+			out = append(out, s)
+		}
+		return out
+	}
+	decRewriteLists(fd.Body, strip)
+	// N6: `must(h(args))` where h is a helper unknown to the model whose body, with the same plumbing removed, is
+	// straight-line and ends in `return <e>` / `return nil` / `return`: the body takes the place of the call
+	// (an extracted run of error-checked calls)
+	if d.nz != nil {
+		for round := 0; round < 3; round++ {
+			changed := false
+			decRewriteLists(fd.Body, func(l []ast.Stmt) []ast.Stmt {
+				var out []ast.Stmt
+				for _, s := range l {
+					if es, ok := s.(*ast.ExprStmt); ok {
+						if m, ok := es.X.(*ast.CallExpr); ok && decName(m.Fun) == "must" && len(m.Args) == 1 {
+							if call, ok := m.Args[0].(*ast.CallExpr); ok {
+								if h := d.nz.helperOf(call); h != nil {
+									if bind := d.nz.binding(h, call); bind != nil {
+										if body := d.nz.cloneStmts(h.Body.List); body != nil {
+											holder := &ast.BlockStmt{List: body}
+											saveRecv, saveLocals := d.recv, d.locals
+											d.enter(h)
+											holder.List = strip(holder.List)
+											d.recv, d.locals = saveRecv, saveLocals
+											n := len(holder.List)
+											ok := n > 0
+											for i, t := range holder.List {
+												switch x := t.(type) {
+												case *ast.ReturnStmt:
+													if i != n-1 || len(x.Results) > 1 {
+														ok = false
+													}
+												case *ast.ExprStmt, *ast.AssignStmt, *ast.IncDecStmt:
+												default:
+													ok = false
+												}
+											}
+											if ok {
+												if _, isRet := holder.List[n-1].(*ast.ReturnStmt); !isRet {
+													ok = false
+												}
+											}
+											if ok {
+												d.nz.subst(holder, bind)
+												ret := holder.List[n-1].(*ast.ReturnStmt)
+												out = append(out, holder.List[:n-1]...)
+												if len(ret.Results) == 1 && decName(ret.Results[0]) != "nil" && decName(ret.Results[0]) != decLastResultName(h) {
+													out = append(out, &ast.ExprStmt{X: &ast.CallExpr{Fun: ast.NewIdent("must"), Args: []ast.Expr{ret.Results[0]}}})
+												}
+												changed = true
+												continue
+											}
+										}
+									}
+								}
+							}
+						}
+					}
+					out = append(out, s)
+				}
+				return out
+			})
+			if !changed {
+				break
+			}
+		}
+	}
+	if before != nil {
+		before(fd)
+	}
+	decClearPos(reflect.ValueOf(fd.Body))
+	// N11: a run of adjacent plain assignments `x = e` (no calls, different targets, no target read by another member of
+	// the run) is written in a fixed order: swapping independent assignments changes nothing
+	decRewriteLists(fd.Body, func(l []ast.Stmt) []ast.Stmt {
+		plain := func(st ast.Stmt) (lhs, rhs string, ok bool) {
+			as, isAs := st.(*ast.AssignStmt)
+			if !isAs || as.Tok != token.ASSIGN || len(as.Lhs) != 1 || len(as.Rhs) != 1 {
+				return "", "", false
+			}
+			calls := false
+			ast.Inspect(as.Rhs[0], func(n ast.Node) bool {
+				if _, c := n.(*ast.CallExpr); c {
+					calls = true
+				}
+				return true
+			})
+			ast.Inspect(as.Lhs[0], func(n ast.Node) bool {
+				switch n.(type) {
+				case *ast.CallExpr, *ast.IndexExpr, *ast.StarExpr:
+					calls = true
+				}
+				return true
+			})
+			if calls {
+				return "", "", false
+			}
+			nzp := &decNormaliser{fset: d.fset}
+			return nzp.print(as.Lhs[0]), nzp.print(as.Rhs[0]), true
+		}
+		for i := 0; i < len(l); {
+			j := i
+			var lhss, rhss []string
+			for j < len(l) {
+				lh, rh, ok := plain(l[j])
+				if !ok {
+					break
+				}
+				indep := true
+				for k := range lhss {
+					if lhss[k] == lh || strings.Contains(rh, lhss[k]) || strings.Contains(rhss[k], lh) || strings.Contains(lh, lhss[k]) || strings.Contains(lhss[k], lh) {
+						indep = false
+					}
+				}
+				if !indep {
+					break
+				}
+				lhss, rhss = append(lhss, lh), append(rhss, rh)
+				j++
+			}
+			if j-i >= 2 {
+				run := l[i:j]
+				sort.SliceStable(run, func(a, b int) bool {
+					la, _, _ := plain(run[a])
+					lb, _, _ := plain(run[b])
+					return la < lb
+				})
+			}
+			if j == i {
+				j = i + 1
+			}
+			i = j
+		}
+		return l
+	})
+	return d.render(fd.Body)
+}
+
+// decLastResultName is the name of the last (error) result of a function ("" if unnamed).
+func decLastResultName(fd *ast.FuncDecl) string {
+	if fd.Type.Results == nil || len(fd.Type.Results.List) == 0 {
+		return ""
+	}
+	f := fd.Type.Results.List[len(fd.Type.Results.List)-1]
+	if len(f.Names) == 0 {
+		return ""
+	}
+	return f.Names[len(f.Names)-1].Name
+}
+
+// decRecvType is the receiver type name of a method ("" for a function).
+func decRecvType(fd *ast.FuncDecl) string {
+	if fd.Recv == nil || len(fd.Recv.List) != 1 {
+		return ""
+	}
+	t := fd.Recv.List[0].Type
+	if s, ok := t.(*ast.StarExpr); ok {
+		t = s.X
+	}
+	if id, ok := t.(*ast.Ident); ok {
+		return id.Name
+	}
+	return ""
+}
+
+// closure renders a function and, after it, every function of the given files it reaches, each once.  The names of
+// those functions are treated like the names of locals: in the text they are `$f1`, `$f2`, … in order of first
+// occurrence, so that renaming a function or method (and all its call sites) changes nothing, while a change in any of
+// the bodies does.  `log` calls are left alone (debug output).
+func (d *decExtractor) closure(root *ast.FuncDecl, files map[string]bool) string {
+	nz := d.nz
+	id := map[*ast.FuncDecl]int{}
+	var order []*ast.FuncDecl
+	resolve := func(cur *ast.FuncDecl, call *ast.CallExpr) *ast.FuncDecl {
+		var cands []*ast.FuncDecl
+		switch f := call.Fun.(type) {
+		case *ast.Ident:
+			for _, c := range nz.all[f.Name] {
+				if c.Recv == nil {
+					cands = append(cands, c)
+				}
+			}
+		case *ast.SelectorExpr:
+			var meths []*ast.FuncDecl
+			for _, c := range nz.all[f.Sel.Name] {
+				if c.Recv != nil {
+					meths = append(meths, c)
+				}
+			}
+			if x, ok := f.X.(*ast.Ident); ok && x.Name == decRecvIdent(cur) && decRecvType(cur) != "" {
+				for _, c := range meths {
+					if decRecvType(c) == decRecvType(cur) {
+						cands = append(cands, c)
+					}
+				}
+			} else if len(meths) == 1 {
+				cands = meths
+			}
+		}
+		if len(cands) != 1 || cands[0].Name.Name == "log" || cands[0] == root {
+			return nil
+		}
+		if !files[filepath.Base(d.fset.Position(cands[0].Pos()).Filename)] {
+			return nil
+		}
+		return cands[0]
+	}
+	rename := func(cur *ast.FuncDecl) {
+		ast.Inspect(cur.Body, func(n ast.Node) bool {
+			call, ok := n.(*ast.CallExpr)
+			if !ok {
+				return true
+			}
+			t := resolve(cur, call)
+			if t == nil {
+				return true
+			}
+			k, seen := id[t]
+			if !seen {
+				k = len(order) + 1
+				id[t] = k
+				order = append(order, t)
+			}
+			name := "$f" + strconv.Itoa(k)
+			switch f := call.Fun.(type) {
+			case *ast.Ident:
+				call.Fun = ast.NewIdent(name)
+			case *ast.SelectorExpr:
+				call.Fun = &ast.SelectorExpr{X: f.X, Sel: ast.NewIdent(name)}
+			}
+			return true
+		})
+	}
+	// positions are needed by resolve (file of a declaration): take them before the skeleton clears them
+	one := func(fd *ast.FuncDecl) string {
+		nz.normalise(fd)
+		return d.skeletonWith(fd, rename)
+	}
+	parts := []string{root.Name.Name + " " + one(root)}
+	for i := 0; i < len(order) && i < 80; i++ {
+		parts = append(parts, "$f"+strconv.Itoa(i+1)+" "+one(order[i]))
+	}
+	return strings.Join(parts, " ;; ")
 }
 
 // decParamName is the name of the i-th parameter of a function ("" if there is none).
@@ -1039,7 +1356,7 @@ func (f *decFacts) lean() string {
 		"jumpGuard : String", "skipBelow : String", "nextOffsetPlus : Int", "readerNextOffsetPlus : Int",
 		"emptyWhenHwmEqOffset : Bool", "closeStoresOffset : Bool", "oorSeeksConn : Bool",
 		"firstOffsetConst : Int", "lastOffsetConst : Int", "initResolve : String", "initSeeksResolved : Bool",
-		"runResetsAttempt : Bool", "runErrcountInc : Bool", "loopBranches : String",
+		"runResetsAttempt : Bool", "runErrcountInc : Bool", "loopBranches : String", "decoderText : String",
 	} {
 		b.WriteString("  " + fld + "\n")
 	}
@@ -1070,6 +1387,7 @@ func (f *decFacts) lean() string {
 		"runResetsAttempt := " + strconv.FormatBool(f.runResetsAttempt),
 		"runErrcountInc := " + strconv.FormatBool(f.runErrcountInc),
 		"loopBranches := " + decLeanString(f.loopBranches),
+		"decoderText := " + decLeanString(f.decoderText),
 	}
 	b.WriteString("  { " + strings.Join(vals, ",\n    ") + " }\n\n")
 	b.WriteString("end KV.Gen\n")
